@@ -25,6 +25,7 @@ const (
 type intRules struct {
 	Min, Max   bool
 	XMin, XMax int // 0 unset, 1 true, 2 false
+	Bad        int // 0 bounds fine; 1 minimum > maximum (both present); 2 a bound outside the format's range
 }
 
 type fty struct {
@@ -91,7 +92,7 @@ func (t fty) Coq() string {
 		f := map[string]string{"INT32": "I32", "INT64": "I64", "UINT32": "U32", "UINT64": "U64"}[t.Fmt]
 		r := "None"
 		if t.IR != nil {
-			r = fmt.Sprintf("(Some (mkIR %s %s %s %s))", b(t.IR.Min), b(t.IR.Max), optBool(t.IR.XMin), optBool(t.IR.XMax))
+			r = fmt.Sprintf("(Some (mkIR %s %s %s %s %s))", b(t.IR.Min), b(t.IR.Max), optBool(t.IR.XMin), optBool(t.IR.XMax), b(t.IR.Bad != 0 && (t.IR.Min || t.IR.Max)))
 		}
 		return fmt.Sprintf("(TInteger %s %s %s)", f, r, b(t.LRules))
 	case "key":
@@ -248,12 +249,23 @@ func (t fty) body(prefix string) []string {
 	case "integer":
 		if t.IR != nil {
 			n := 0
+			lo, hi := "1", "9"
+			switch {
+			case t.IR.Bad == 1 && t.IR.Min && t.IR.Max:
+				lo, hi = "9", "1"
+			case t.IR.Bad != 0 && t.IR.Min:
+				// beyond the 32-bit ranges (the lexer has no negative literals, and nothing is out of range for 64 bits)
+				lo = map[string]string{"INT32": "3000000000", "UINT32": "5000000000"}[t.Fmt]
+				hi = "9"
+			case t.IR.Bad != 0 && t.IR.Max:
+				hi = map[string]string{"INT32": "3000000000", "UINT32": "5000000000"}[t.Fmt]
+			}
 			if t.IR.Min {
-				add("rules.minimum = 1")
+				add("rules.minimum = " + lo)
 				n++
 			}
 			if t.IR.Max {
-				add("rules.maximum = 9")
+				add("rules.maximum = " + hi)
 				n++
 			}
 			if t.IR.XMin != 0 {
@@ -316,6 +328,28 @@ func (t fty) body(prefix string) []string {
 // declarations go to the same file (FSame) or to foo/v1/types.j5s (FOther).
 func (p propT) Text() map[string]string {
 	t := p.Shape.Item
+	var sb strings.Builder
+	sb.WriteString("package foo.v1\n\nobject Foo {\n")
+	for _, l := range p.fieldLines("f") {
+		sb.WriteString("  " + l + "\n")
+	}
+	sb.WriteString("}\n")
+	out := map[string]string{}
+	switch t.Ref {
+	case rMsgSame, rEnumSame:
+		sb.WriteString("\n" + refDecls)
+	case rMsgOther, rEnumOther:
+		out["foo/v1/types.j5s"] = "package foo.v1\n\n" + refDecls
+	}
+	out["foo/v1/a.j5s"] = sb.String()
+	return out
+}
+
+const refDecls = "object Bar {\n  field x string\n}\n\noneof Choice {\n  option x object {\n    field y string\n  }\n}\n\nenum Kind {\n  option A\n  option B\n}\n"
+
+// fieldLines renders the property as `field <name> ...` (unindented lines).
+func (p propT) fieldLines(name string) []string {
+	t := p.Shape.Item
 	spec := t.typeSpec()
 	prefix := ""
 	switch p.Shape.Kind {
@@ -357,28 +391,14 @@ func (p propT) Text() map[string]string {
 			body = append(body, "rules.minItems = 1")
 		}
 	}
-	var sb strings.Builder
-	sb.WriteString("package foo.v1\n\nobject Foo {\n")
 	if len(body) == 0 {
-		fmt.Fprintf(&sb, "  field f %s%s\n", marker, spec)
-	} else {
-		fmt.Fprintf(&sb, "  field f %s%s {\n", marker, spec)
-		for _, l := range body {
-			sb.WriteString("    " + l + "\n")
-		}
-		sb.WriteString("  }\n")
+		return []string{fmt.Sprintf("field %s %s%s", name, marker, spec)}
 	}
-	sb.WriteString("}\n")
-	decls := "object Bar {\n  field x string\n}\n\noneof Choice {\n  option x object {\n    field y string\n  }\n}\n\nenum Kind {\n  option A\n  option B\n}\n"
-	out := map[string]string{}
-	switch t.Ref {
-	case rMsgSame, rEnumSame:
-		sb.WriteString("\n" + decls)
-	case rMsgOther, rEnumOther:
-		out["foo/v1/types.j5s"] = "package foo.v1\n\n" + decls
+	out := []string{fmt.Sprintf("field %s %s%s {", name, marker, spec)}
+	for _, l := range body {
+		out = append(out, "  "+l)
 	}
-	out["foo/v1/a.j5s"] = sb.String()
-	return out
+	return append(out, "}")
 }
 
 // ---- enumeration of the expressible field types ----
@@ -429,15 +449,28 @@ func allFtys(full bool) []fty {
 					for _, mx := range bools {
 						for xmn := 0; xmn < 3; xmn++ {
 							for xmx := 0; xmx < 3; xmx++ {
-								out = append(out, fty{Kind: "integer", Fmt: f, LRules: lr, IR: &intRules{mn, mx, xmn, xmx}})
+								out = append(out, fty{Kind: "integer", Fmt: f, LRules: lr, IR: &intRules{mn, mx, xmn, xmx, 0}})
+							}
+						}
+						if mn || mx {
+							// bounds the rule cannot express: a bound out of range, minimum above maximum
+							if f == "INT32" || f == "UINT32" {
+								out = append(out, fty{Kind: "integer", Fmt: f, LRules: lr, IR: &intRules{mn, mx, 0, 0, 2}})
+							}
+							if mn && mx {
+								out = append(out, fty{Kind: "integer", Fmt: f, LRules: lr, IR: &intRules{mn, mx, 0, 0, 1}})
 							}
 						}
 					}
 				}
 			} else {
 				out = append(out, fty{Kind: "integer", Fmt: f, LRules: lr, IR: &intRules{Min: true}})
-				out = append(out, fty{Kind: "integer", Fmt: f, LRules: lr, IR: &intRules{true, true, 1, 2}})
-				out = append(out, fty{Kind: "integer", Fmt: f, LRules: lr, IR: &intRules{false, false, 2, 0}})
+				out = append(out, fty{Kind: "integer", Fmt: f, LRules: lr, IR: &intRules{true, true, 1, 2, 0}})
+				out = append(out, fty{Kind: "integer", Fmt: f, LRules: lr, IR: &intRules{false, false, 2, 0, 0}})
+				out = append(out, fty{Kind: "integer", Fmt: f, LRules: lr, IR: &intRules{true, true, 0, 0, 1}})
+				if f == "UINT32" {
+					out = append(out, fty{Kind: "integer", Fmt: f, LRules: lr, IR: &intRules{true, false, 0, 0, 2}})
+				}
 			}
 		}
 	}
